@@ -81,7 +81,7 @@ def RowV.present (r : RowV) : List Bool := (r.vals.take r.natts).map Option.isSo
 def RowV.hasNull (r : RowV) : Bool := r.present.any (!·)
 
 def RowV.WF (cols : List Col) (r : RowV) : Prop :=
-  r.vals.length = cols.length ∧ r.natts ≤ cols.length ∧ r.natts < 2048 ∧ r.infomask < 65536 ∧
+  r.vals.length = cols.length ∧ r.natts ≤ cols.length ∧ r.natts ≤ 1600 ∧ r.infomask < 65536 ∧
   (∀ p ∈ cols.zip r.vals, (p.1.align = 1 ∨ p.1.align = 2 ∨ p.1.align = 4 ∨ p.1.align = 8) ∧ ∀ d, p.2 = some d → d.WF p.1)
 
 instance (cols : List Col) (r : RowV) : Decidable (r.WF cols) := by unfold RowV.WF; infer_instance
